@@ -265,3 +265,33 @@ Example C06_statement_spans_instance :
             = rmap (fun spans => flat_map bspans (combine (ploads_of (map tseg_pseg ex_tsegs)) spans)) r /\
             res_span_eq r (expected_with thr_hi (map (tseg_spec_event false 0) ex_tsegs)).
 Proof. exact (proj2 (proj2 ex_statement_spans)). Qed.
+
+(* ---- wave 7: timing for the layout of pycaption's own SCCWriter (Erase-Displayed-Memory inside the load line, before
+   its End-Of-Caption; preamble codes in the indent-0 form). The display events of a writer-style line are Clear at the
+   instant of its EDM word and Show at the instant of its EOC word (wexpand); what read returns carries the statement's
+   spans of these events ------------------------------------------------------------------------------------------- *)
+From PV Require Import spec.SpecScc05Inline proofs.SccInlineEdmFacts.
+Theorem C06_popon_times_inline : forall d off ws evs,
+  Forall (wseg_clock d off) ws -> forallb pseg_ok8 (wexpand ws) = true ->
+  res_map (pseg_event d off) (wexpand ws) = Ok evs -> positive evs ->
+  spans_of (read off (map (wseg_line d) ws))
+  = rmap (fun spans => flat_map bspans (combine (ploads_of (wexpand ws)) spans)) (expected_with join_threshold evs).
+Proof. exact popon_times_inline. Qed.
+Print Assumptions C06_popon_times_inline.
+(* non-vacuity: the instance of props/C05.v - the first caption ends at the EDM of the second line (one doubled pair
+   before the second caption's EOC: the gap of two frames is closed), the second at the clear line *)
+Example C06_inline_instance :
+  spans_of (read 0 (map (wseg_line true) exw_ws))
+  = rmap (fun spans => flat_map bspans (combine (ploads_of (wexpand exw_ws)) spans))
+         (match res_map (pseg_event true 0) (wexpand exw_ws) with Ok evs => expected_with join_threshold evs | Err e => Err e end)
+  /\ match spans_of (read 0 (map (wseg_line true) exw_ws)) with Ok [(s1, e1); (s2, e2)] => Qeq_bool e1 s2 | _ => false end = true.
+Proof. vm_compute. split; reflexivity. Qed.
+From PV Require Import proofs.SccInlineCorFacts.
+Theorem C06_popon_times_inline_text : forall d off ws evs up eol,
+  Forall (wseg_clock d off) ws -> forallb pseg_ok8 (wexpand ws) = true ->
+  res_map (pseg_event d off) (wexpand ws) = Ok evs -> positive evs ->
+  Forall wf_sline (map (wseg_line d) ws) -> good_eol eol ->
+  spans_of (read off (tokenise (render_gen up eol (map (wseg_line d) ws))))
+  = rmap (fun spans => flat_map bspans (combine (ploads_of (wexpand ws)) spans)) (expected_with join_threshold evs).
+Proof. exact popon_times_inline_text. Qed.
+Print Assumptions C06_popon_times_inline_text.
